@@ -348,6 +348,37 @@ theorem fr_sqrt_terminates {a : List Nat} (ha : Limbs 4 a) (hlt : limbsToNat a <
   rw [h] at this
   exact PP.Fr.sqrtFuel_ne_none _ this.symm
 
+/-! ## 3b. `Field::random` (rejection sampling from an RNG; `nextU64` = `RngCore::next_u64` as a function of the
+RNG state, assumed only to return 64-bit words) -/
+
+theorem fq_random {Rng : Type} {nextU64 : Rng → Rng × Nat} (h : ∀ s, (nextU64 s).2 < 2 ^ 64) (fuel : Nat) (rng : Rng) :
+    D.Fq.random nextU64 fuel rng = randomSpec nextU64 6 61 fqP.p fuel rng := Fq_random_eq h fuel rng
+
+theorem fr_random {Rng : Type} {nextU64 : Rng → Rng × Nat} (h : ∀ s, (nextU64 s).2 < 2 ^ 64) (fuel : Nat) (rng : Rng) :
+    D.Fr.random nextU64 fuel rng = randomSpec nextU64 4 63 frP.p fuel rng := Fr_random_eq h fuel rng
+
+/-- for EVERY RNG, whatever `Fq::random` returns is a well-formed limb list with value `< q`: a valid element -/
+theorem fq_random_valid {Rng : Type} {nextU64 : Rng → Rng × Nat} (h : ∀ s, (nextU64 s).2 < 2 ^ 64) (fuel : Nat)
+    (rng rng' : Rng) (x : List Nat) (hx : D.Fq.random nextU64 fuel rng = some (rng', x)) :
+    Limbs 6 x ∧ limbsToNat x < fqP.p ∧ D.Fq.is_valid x = true := by
+  rw [Fq_random_eq h] at hx
+  have := randomSpec_sound h 6 61 fqP.p fuel rng rng' x hx
+  exact ⟨this.1, this.2, by rw [Fq_is_valid x this.1]; exact decide_eq_true this.2⟩
+
+theorem fr_random_valid {Rng : Type} {nextU64 : Rng → Rng × Nat} (h : ∀ s, (nextU64 s).2 < 2 ^ 64) (fuel : Nat)
+    (rng rng' : Rng) (x : List Nat) (hx : D.Fr.random nextU64 fuel rng = some (rng', x)) :
+    Limbs 4 x ∧ limbsToNat x < frP.p ∧ D.Fr.is_valid x = true := by
+  rw [Fr_random_eq h] at hx
+  have := randomSpec_sound h 4 63 frP.p fuel rng rng' x hx
+  exact ⟨this.1, this.2, by rw [Fr_is_valid x this.1]; exact decide_eq_true this.2⟩
+
+/-- a counter RNG: the first attempt succeeds for `Fq`; an all-ones RNG never succeeds (every candidate is
+    `2^381 - 1 > q`), so the fuel is really needed -/
+example : D.Fq.random (fun s : Nat => (s + 1, s % 2 ^ 64)) 1 0 = some (6, [0, 1, 2, 3, 4, 5]) ∧
+    D.Fq.random (fun s : Nat => (s + 1, 2 ^ 64 - 1)) 3 0 = none ∧
+    D.Fr.random (fun s : Nat => (s + 1, if s < 4 then 2 ^ 64 - 1 else s)) 2 0 = some (8, [4, 5, 6, 7]) := by
+  decide +kernel
+
 /-! ## 4. concrete runs in the kernel (non-vacuity; the generated code is executable) -/
 
 example : D.Fq.add_assign (limbsOf 6 (Gen.q - 1)) (limbsOf 6 5) = limbsOf 6 4 := by decide +kernel
